@@ -1,17 +1,33 @@
-//! L1 component monitors over qrecovery / qcongestion / qdatagram.
-//! usage: l1rec <property> --seed S --budget N --tier quick|thorough --shard i --shards n
-//!              --out frag.json [--replay file]
+//! l1rec: runtime monitors; usage: l1rec <property> --seed S --tier quick|thorough --shard i --shards n [--budget N] --out frag.json [--replay file]
+mod c01;
+mod c04;
+mod c07;
 mod c08;
+mod c09;
+mod c10;
+mod c11;
+mod c12;
+mod c13;
+mod c19;
 
 use vcore::{Args, Report};
 
 fn main() {
     let args = Args::parse();
     let prop = args.pos.first().cloned().unwrap_or_default();
-    vcore::panics::install(true);
+    vcore::panics::install(!args.flag("loud"));
     let mut rep = Report::new(&prop.to_uppercase(), args.seed());
     match prop.as_str() {
+        "c01" => c01::run(&args, &mut rep),
+        "c04" => c04::run(&args, &mut rep),
+        "c07" => c07::run(&args, &mut rep),
         "c08" => c08::run(&args, &mut rep),
+        "c09" => c09::run(&args, &mut rep),
+        "c10" => c10::run(&args, &mut rep),
+        "c11" => c11::run(&args, &mut rep),
+        "c12" => c12::run(&args, &mut rep),
+        "c13" => c13::run(&args, &mut rep),
+        "c19" => c19::run(&args, &mut rep),
         other => {
             eprintln!("unknown property {other}");
             std::process::exit(2);
